@@ -81,6 +81,10 @@ def bounds(tier):
 
 
 def cap(tier):
+    import os
+
+    if os.environ.get('VERIF_C09_L'):
+        return int(os.environ['VERIF_C09_L'])
     return 3 if tier == 'quick' else 4
 
 
@@ -446,7 +450,17 @@ def expand(batch, tier, seed):
 
 
 def run(ctx):
-    return explore.bfs(ctx, 'expand', max_depth=None if ctx.tier == 'quick' else None, batch=8)
+    import os
+    import sys
+    import time
+
+    t0 = time.time()
+
+    def on_level(depth, new, total):
+        if os.environ.get('VERIF_PROGRESS'):
+            print(f'  level {depth}: +{new} states, {total} total, {time.time() - t0:.0f}s', file=sys.stderr, flush=True)
+
+    return explore.bfs(ctx, 'expand', batch=8, on_level=on_level)
 
 
 def replay(case, tier, seed):
